@@ -1,7 +1,110 @@
-import Amqp.Model.Uri
+import Amqp.Lemmas.Uri
+/-!
+# C18 — UriConnection uses exactly the parameters the URI states
+
+Model: `Amqp/Model/Uri.lean` (`connectionParams`).  amqpstorm's own code — the scheme rewrite of
+`compatibility.patch_uri`, and the expression that reaches each entry of `Connection.parameters`
+through `UriConnection.__init__`, `_parse_uri_options` and `Connection.__init__` — is regenerated from
+the source into `Gen/Uri.lean` on every run, so these theorems are re-proved against what the code
+says now.  The documented defaults are written out literally in `expected` (Lemmas/Uri.lean), not
+taken from the source.  `urlsplit/urlparse/unquote/parse_qs/int` are CPython library code, modelled
+by hand and tied by correspondence.
+
+`v6ok` is the verdict of the library's bracketed-host syntax check (`ipaddress`), a parameter.
+-/
 namespace Amqp.C18
 open Amqp Amqp.Uri
 
-theorem placeholder : unquote [] = [] := rfl
+/-- `quote(s, safe='')` produces only unreserved characters, '%' and hex digits: in particular none
+    of the URI delimiters `: / ? # [ ] @ ; & = +`, no blanks, no control characters -/
+theorem quote_safe (s : Str) : ∀ x ∈ quote s, tok x = true ∧
+    x ≠ ':' ∧ x ≠ '/' ∧ x ≠ '?' ∧ x ≠ '#' ∧ x ≠ '[' ∧ x ≠ ']' ∧ x ≠ '@' ∧ x ≠ ';' ∧ x ≠ '&' ∧ x ≠ '=' ∧
+    x ≠ '+' ∧ 37 ≤ x.toNat ∧ x.toNat ≤ 126 := by
+  intro x hx
+  have h := quote_tok s x hx
+  have p := tok_props x h
+  have r := urlCh_range x (urlCh_of_tok x h)
+  exact ⟨h, p.2.2.2.2.1, p.2.2.2.1, p.1, p.2.1, p.2.2.2.2.2.2.1, p.2.2.2.2.2.2.2, p.2.2.2.2.2.1, p.2.2.1,
+    class_ne tok x _ h (by decide), class_ne tok x _ h (by decide), class_ne tok x _ h (by decide), r.1, r.2⟩
+
+/-- UTF-8 decoding (with replacement, as CPython does it) inverts UTF-8 encoding on every text -/
+theorem utf8_roundtrip (s : Str) : utf8Dec (utf8 s) = s := utf8Dec_utf8 s
+
+/-- **percent-decoding inverts percent-encoding for every Unicode text**, whatever characters it
+    contains (reserved, control, non-ASCII, '%' itself) -/
+theorem unquote_quote (s : Str) : unquote (quote s) = s := Amqp.Uri.unquote_quote s
+
+/-- `patch_uri` rewrites exactly the scheme of an amqp/amqps URI and nothing after it -/
+theorem patch_scheme (tls : Bool) (r : Str) : patchUri (amqpPrefix tls ++ r) = httpPrefix tls ++ r :=
+  patchUri_amqp tls r
+
+/-- **Main theorem.**  For every URI rendered from components — arbitrary Unicode username,
+    password and virtual host (percent-encoded), a host that is a name / IPv4 literal / bracketed
+    IPv6 literal or is omitted, a port in 1..65535 or omitted, heartbeat/timeout options in any
+    order and multiplicity, either scheme, and *every subset of omitted components* — the
+    connection parameters are exactly what the URI states: credentials and vhost equal the original
+    texts, the host is the given one lower-cased without brackets, the port is the given one,
+    `amqps` selects TLS, heartbeat and timeout are the integers of the first occurrence, and
+    everything absent (or empty) takes its documented default (guest/guest, localhost, 5672 or 5671
+    with TLS, '/', 60, 10). -/
+theorem parse_render (v6ok : Str → Bool) (c : Components) (hw : c.WF v6ok) :
+    connectionParams v6ok (render c) = .ok (expected c) := by
+  unfold connectionParams
+  rw [urlparse_render v6ok c hw]
+  have hhb := optValue_query Gen.Uri.pHeartbeat rfl c.opts
+  have htm := optValue_query Gen.Uri.pTimeout rfl c.opts
+  simp only [Gen.Uri.pHeartbeat, Gen.Uri.pTimeout] at hhb htm
+  rw [firstOpt_hb] at hhb
+  rw [firstOpt_tmo] at htm
+  simp only [bind, Except.bind, pure, Except.pure, Gen.Uri.pHeartbeat, Gen.Uri.pTimeout, hhb, htm]
+  congr 1
+  -- field by field
+  have hhost : Gen.Uri.pHostname unquote (httpScheme c.tls) (c.host.map fun h => h.text.map Char.toLower)
+      (uiUser c.user c.pass) (c.pass.map quote) c.port (renderPath c.vhost) = (expected c).hostname := by
+    simp only [Gen.Uri.pHostname, expected]
+    cases hh : c.host with
+    | none => rfl
+    | some h =>
+      have hwf := hw.host h hh
+      have hne : h.text.map Char.toLower ≠ [] := by
+        cases h <;> simp only [Host.WF] at hwf <;> simp [Host.text, hwf.1]
+      simp [strOr, hne]
+  have huser : Gen.Uri.pUsername unquote (httpScheme c.tls) (c.host.map fun h => h.text.map Char.toLower)
+      (uiUser c.user c.pass) (c.pass.map quote) c.port (renderPath c.vhost) = (expected c).username := by
+    simp only [Gen.Uri.pUsername, expected]
+    cases hu : c.user <;> cases hp : c.pass <;> simp only [uiUser, Option.getD_none, Option.getD_some]
+    · exact cred_none
+    · exact cred_some []
+    · exact cred_some _
+    · exact cred_some _
+  have hpass : Gen.Uri.pPassword unquote (httpScheme c.tls) (c.host.map fun h => h.text.map Char.toLower)
+      (uiUser c.user c.pass) (c.pass.map quote) c.port (renderPath c.vhost) = (expected c).password := by
+    simp only [Gen.Uri.pPassword, expected]
+    cases hp : c.pass
+    · exact cred_none
+    · exact cred_some _
+  have hport : Gen.Uri.pPort unquote (httpScheme c.tls) (c.host.map fun h => h.text.map Char.toLower)
+      (uiUser c.user c.pass) (c.pass.map quote) c.port (renderPath c.vhost) = (expected c).port := by
+    simp only [Gen.Uri.pPort, expected]
+    cases hp : c.port with
+    | none => cases c.tls <;> decide
+    | some n =>
+      have := (hw.port n hp).1
+      simp only [natOr]
+      rw [if_neg (by omega)]
+  have hvh : Gen.Uri.pVirtualHost unquote (httpScheme c.tls) (c.host.map fun h => h.text.map Char.toLower)
+      (uiUser c.user c.pass) (c.pass.map quote) c.port (renderPath c.vhost) = (expected c).virtualHost := by
+    simp only [Gen.Uri.pVirtualHost, expected]
+    cases hv : c.vhost with
+    | none => decide
+    | some v =>
+      simp only [renderPath, List.drop_succ_cons, List.drop_zero, Amqp.Uri.unquote_quote, strOrS, orDefault]
+  have hssl : Gen.Uri.pSsl unquote (httpScheme c.tls) (c.host.map fun h => h.text.map Char.toLower)
+      (uiUser c.user c.pass) (c.pass.map quote) c.port (renderPath c.vhost) = (expected c).ssl := by
+    simp only [Gen.Uri.pSsl, expected]
+    cases c.tls <;> decide
+  rw [hhost, huser, hpass, hport, hvh, hssl]
+  simp only [expected]
+  cases firstHb c.opts <;> cases firstTmo c.opts <;> rfl
 
 end Amqp.C18
